@@ -100,12 +100,13 @@ type CertSpec struct {
 	Principals  []string
 	CritOpts    map[string]string
 	Serial      uint64
+	Host        bool // a host certificate instead of a user certificate
 }
 
 // MakeCert signs a user certificate with the pooled CA.
 func MakeCert(s CertSpec) *ssh.Certificate {
 	c := &ssh.Certificate{
-		Key: s.Key.Pub, Serial: s.Serial, CertType: ssh.UserCert, KeyId: s.KeyID, ValidPrincipals: s.Principals,
+		Key: s.Key.Pub, Serial: s.Serial, CertType: map[bool]uint32{false: ssh.UserCert, true: ssh.HostCert}[s.Host], KeyId: s.KeyID, ValidPrincipals: s.Principals,
 		ValidAfter: s.ValidAfter, ValidBefore: s.ValidBefore,
 		Permissions: ssh.Permissions{CriticalOptions: s.CritOpts, Extensions: map[string]string{"permit-pty": ""}},
 	}
